@@ -67,6 +67,8 @@ c.finish(
         "(modelled as rune lists; a string that is not valid UTF-8 cannot be stored in a ToUnicode CMap)",
         "enumeration theorems assume at most limits.MaxCMapMappings (translated constant) entries, the documented budget of All()",
         "rangeIndex results are capped at math.MaxInt32 as the Go code documents (hypothesis i <= max_int32)",
+        "codes are byte STRINGS in the model (the *_bytes theorems are keyed by them): <41>, <0041> and <000041> are different keys; runs are cut "
+        "by the all-but-last-byte prefix, so codes of different lengths never share a range (setmapping_ranges_wf, tounicode_ranges_wf)",
         "the SetMapping theorems quantify over an arbitrary parent file/chain (hand-made, overlapping entries, ranges wider than "
         "MaxCMapMappings); redundancy of an entry is decided by lookup in the parent chain (first match), not by its enumeration",
         "Embed/Extract of chains: the /UseCMap stream of the dictionary decides the parent, the usecmap name is looked up among the predefined "
